@@ -1649,6 +1649,14 @@ class Interp:
             return self.models.getslice(self, base, lo, hi, st)
         return self.models.getitem(self, base, self.eval(node.slice, env))
 
+    def _e_Slice(self, node: ast.Slice, env: Env) -> Any:
+        lo = self.eval(node.lower, env) if node.lower else None
+        hi = self.eval(node.upper, env) if node.upper else None
+        st = self.eval(node.step, env) if node.step else None
+        if not all(x is None or (isinstance(x, int) and not isinstance(x, bool)) for x in (lo, hi, st)):
+            raise self.unsupported("slice with non-constant bounds")
+        return slice(lo, hi, st)
+
     def _e_Starred(self, node: ast.Starred, env: Env) -> Any:
         raise self.unsupported("starred expression outside call/display")
 
